@@ -22,7 +22,11 @@ Section Struct.
     left_rotate h root x = Some (h', root') ->
     exists b y d, r = Nd b y d /\ y = hright h x /\
       SInv h' root' (plug c (Nd (Nd a x b) y d)) /\ same_kvc h h' /\ hparent h' x = y /\
-      root' = (if hparent h x =? NIL then y else root).
+      root' = (if hparent h x =? NIL then y else root) /\
+      (forall j, j <> x -> j <> y -> hmax h' j = hmax h j) /\
+      hmax h' x = rval ggt (hmax h (hleft h x)) (hmax h (hleft h y)) (hmin nmin h x) /\
+      hmax h' y = rval ggt (rval ggt (hmax h (hleft h x)) (hmax h (hleft h y)) (hmin nmin h x))
+                       (hmax h (hright h y)) (hmin nmin h y).
   Proof.
     intros (HR & HN) Hrot.
     apply Rep_plug in HR. destruct HR as (p & HC & Hx). simpl in Hx.
@@ -97,7 +101,7 @@ Section Struct.
     assert (NCc : NoDup (cids c)).
     { eapply Permutation_NoDup; [symmetry; apply cids_perm|exact NC]. }
     pose proof (RepC_NIL_notin _ _ _ _ HC) as NNc.
-    split; [|split; [exact Fkv|split; [exact Fxp|exact Froot]]].
+    split; [|split; [exact Fkv|split; [exact Fxp|split; [exact Froot|split; [exact Fmax|split; [exact Fmx|exact Fmy]]]]]].
     unfold SInv. split.
     - (* representation *)
       apply Rep_plug. exists y. split.
@@ -134,7 +138,11 @@ Section Struct.
     right_rotate h root y = Some (h', root') ->
     exists a x b, l = Nd a x b /\ x = hleft h y /\
       SInv h' root' (plug c (Nd a x (Nd b y d))) /\ same_kvc h h' /\ hparent h' y = x /\
-      root' = (if hparent h y =? NIL then x else root).
+      root' = (if hparent h y =? NIL then x else root) /\
+      (forall j, j <> y -> j <> x -> hmax h' j = hmax h j) /\
+      hmax h' y = rval ggt (hmax h (hright h x)) (hmax h (hright h y)) (hmin nmin h y) /\
+      hmax h' x = rval ggt (hmax h (hleft h x))
+                       (rval ggt (hmax h (hright h x)) (hmax h (hright h y)) (hmin nmin h y)) (hmin nmin h x).
   Proof.
     intros (HR & HN) Hrot.
     apply Rep_plug in HR. destruct HR as (p & HC & Hy). simpl in Hy.
@@ -208,7 +216,7 @@ Section Struct.
     assert (NCc : NoDup (cids c)).
     { eapply Permutation_NoDup; [symmetry; apply cids_perm|exact NC]. }
     pose proof (RepC_NIL_notin _ _ _ _ HC) as NNc.
-    split; [|split; [exact Fkv|split; [exact Fyp|exact Froot]]].
+    split; [|split; [exact Fkv|split; [exact Fyp|split; [exact Froot|split; [exact Fmax|split; [exact Fmy|exact Fmx]]]]]].
     unfold SInv. split.
     - apply Rep_plug. exists x. split.
       + eapply RepC_swap; [exact HC| |].
@@ -351,7 +359,7 @@ Section Struct.
     x <> NIL /\ hright h x <> NIL /\ In (hright h x) l.
   Proof.
     intros HG Hx Hrot. destruct (node_pos _ _ _ _ HG Hx) as (c & a & r & HR & HN & <- & HC & HRx).
-    destruct (lrot_sinv _ _ _ _ _ _ _ _ (conj HR HN) Hrot) as (b & y & d & -> & Ey & HT' & Hkv & Hp & Hroot).
+    destruct (lrot_sinv _ _ _ _ _ _ _ _ (conj HR HN) Hrot) as (b & y & d & -> & Ey & HT' & Hkv & Hp & Hroot & _).
     assert (Hids : ids (plug c (Nd (Nd a x b) y d)) = ids (plug c (Nd a x (Nd b y d)))).
     { rewrite !ids_plug. f_equal. simpl. repeat (rewrite <- app_assoc; simpl). reflexivity. }
     split; [exists (plug c (Nd (Nd a x b) y d)); split; [exact HT'|exact Hids]|].
@@ -370,7 +378,7 @@ Section Struct.
     y <> NIL /\ hleft h y <> NIL /\ In (hleft h y) l.
   Proof.
     intros HG Hy Hrot. destruct (node_pos _ _ _ _ HG Hy) as (c & l0 & d & HR & HN & <- & HC & HRy).
-    destruct (rrot_sinv _ _ _ _ _ _ _ _ (conj HR HN) Hrot) as (a & x & b & -> & Ex & HT' & Hkv & Hp & Hroot).
+    destruct (rrot_sinv _ _ _ _ _ _ _ _ (conj HR HN) Hrot) as (a & x & b & -> & Ex & HT' & Hkv & Hp & Hroot & _).
     assert (Hids : ids (plug c (Nd a x (Nd b y d))) = ids (plug c (Nd (Nd a x b) y d))).
     { rewrite !ids_plug. f_equal. simpl. repeat (rewrite <- app_assoc; simpl). reflexivity. }
     split; [exists (plug c (Nd a x (Nd b y d))); split; [exact HT'|exact Hids]|].
